@@ -233,7 +233,15 @@ def r23_stacks(ctx):
         for name in names:
             if facts.fns.get(name) is None:
                 continue                      # a delegator that was merged away: whatever took its place is in the discovered list
-            outs = eng.run(name)
+            try:
+                outs = eng.run(name)
+            except PathLimit:
+                # a compound method (one that applies whole moves) reaches the stack writers: not one of the small delegators this clause
+                # summarises; reported as such, and the remaining clauses (who writes the key, R4) still run
+                ctx.ob(rule, name, 'a board method that reaches the writers of %s is a small delegator: stack operation and key toggle in step' % stack, False,
+                       found='more paths than the summariser follows (the method applies or takes back whole moves)', expected='one stack operation + its key toggles per path',
+                       why='the key must change exactly when the top of the stack changes; a method that restores key or stack wholesale is outside what this rule can relate')
+                continue
             ctx.touch(name)
             for o in outs:
                 if o.kind != 'return':
